@@ -97,6 +97,7 @@ type scn struct {
 	Auth        int    `json:"auth"`        // 0 none 1 ok 2 fails
 	AuthGetBody int    `json:"auth_get_body"`
 	AuthFailPos int    `json:"auth_fail_pos"` // 0 before GetBody, 1 after
+	ReuseLate   int    `json:"reuse_late"`    // how connection reuse meets the http client: 0 enabled on a fresh Runtime, 1 Runtime built by NewWithClient, 2 enabled after a first call
 	AuthInspect bool   `json:"auth_inspect"`  // the auth writer looks at everything the request offers first
 	BadURL      int    `json:"bad_url"`       // 0 none 1 pattern 2 base path 3 method
 	Method      string `json:"method"`
@@ -210,6 +211,7 @@ func generate(t *kernel.Tape) *scn {
 	s.Reuse = t.Bool(2, "reuse")
 	s.Debug = t.Bool(8, "debug-mode")
 	s.AuthInspect = t.Bool(3, "auth-writer-inspects-the-request")
+	s.ReuseLate = t.Weighted("reuse-meets-the-client", 3, 1, 1)
 	s.SrcErrKind = t.Weighted("source-error-value", 3, 1, 1, 1, 1, 1)
 	s.SrcErrOnce = t.Bool(3, "source-error-reported-once")
 	s.AdvanceIn = []int{0, 6, 12, 3}[t.Choose(4, "advance-in")]
@@ -571,10 +573,21 @@ func (prop) Run(t *testing.T, tape *kernel.Tape, sc kernel.Scenario) *kernel.Res
 		k.AllowAdvance = func() bool { return tr.InFlight > 0 }
 
 		rt := client.New("sim.local", "/base", []string{"http"})
+		if s.ReuseLate == 1 {
+			// the http client is the caller's own, handed to the constructor
+			rt = client.NewWithClient("sim.local", "/base", []string{"http"}, &http.Client{Transport: tr})
+		}
 		if s.BadURL == 2 {
 			rt.BasePath = "/base%zz"
 		}
 		rt.Transport = tr
+		if s.Reuse && s.ReuseLate == 2 {
+			// connection reuse is switched on after the Runtime has already served a call
+			_, _ = rt.Submit(&runtime.ClientOperation{ID: "warm-up", Method: "GET", PathPattern: "/warm-up", Schemes: []string{"http"},
+				Client: &http.Client{Transport: warmUpTransport{}}, // (its own transport: the scripted one is kept for the measured call)
+				Params: runtime.ClientRequestWriterFunc(func(runtime.ClientRequest, strfmt.Registry) error { return nil }),
+				Reader: runtime.ClientResponseReaderFunc(func(runtime.ClientResponse, runtime.Consumer) (interface{}, error) { return nil, nil })})
+		}
 		if s.Reuse {
 			rt.EnableConnectionReuse()
 		}
@@ -888,3 +901,10 @@ func trimStack(s string) string {
 }
 
 var _ = errors.New
+
+// warmUpTransport answers the warm-up call (204, no body).
+type warmUpTransport struct{}
+
+func (warmUpTransport) RoundTrip(r *http.Request) (*http.Response, error) {
+	return &http.Response{StatusCode: 204, Status: "204 No Content", Header: http.Header{}, Body: http.NoBody, Request: r, Proto: "HTTP/1.1", ProtoMajor: 1, ProtoMinor: 1}, nil
+}
